@@ -93,7 +93,8 @@ impl Model for TwinModel {
                 (Some(x), Some(y)) => !x.size.is_zero() && !y.size.is_zero() && (size_of(x) > 0) != (size_of(y) > 0),
                 _ => false,
             };
-            let fees = self.cfg.toll > 0 || self.cfg.spread > 0;
+            // fees in force: configured at deployment, or switched on mid-history (a close pulls nothing but fees from the trader)
+            let fees = self.cfg.toll > 0 || self.cfg.spread > 0 || (kind == "close" && pulled > 0);
             let cls = if so_c.outcome.ok { err_class(&o_n.err) } else { err_class(&so_c.outcome.err) };
             // the engine took the reverse path when the cw20 run executed two vAMM swaps (close leg + open leg)
             let reversal = reversal || so_c.swaps.len() >= 2;
@@ -224,6 +225,19 @@ pub fn run_c13(tier: Tier) -> i32 {
     for (c, d) in confs {
         let m = TwinModel { cfg: c.clone(), alphabet: alpha.clone() };
         run.explore(&format!("twin [{}]", c.label().replace("cw20", "cw20||native ")), json!({"cfg": to_val(&c)}), &m, &seeds, &Limits::new(d));
+    }
+    // the explorations shared with the engine-level checks: configuration changed mid-history, dust positions
+    let mut extra = vec![];
+    crate::props::engprops::push_cfgchange(&mut extra, tier.pick(3, 4));
+    crate::props::engprops::push_dust(&mut extra, true, tier.pick(3, 4));
+    for e in extra {
+        if !e.cfg.cw20 {
+            continue;
+        }
+        if let crate::props::engprops::Alpha::Static(a) = &e.alpha {
+            let m = TwinModel { cfg: e.cfg.clone(), alphabet: a.clone() };
+            run.explore(&format!("twin, {} [{}]", e.name, e.cfg.label().replace("cw20", "cw20||native ")), json!({"cfg": to_val(&e.cfg)}), &m, &e.seeds, &Limits::new(e.depth));
+        }
     }
     run.finish()
 }
